@@ -38,6 +38,8 @@ def sites(prog, o):
 def apply(prog, o, i, rng):
     """-> (new_prog, expected physical line number) or None"""
     p = prog.copy()
+    if p.lines[i].kind == "fhead" and _is_split(p.lines[i]) and o["id"] not in WRAPPED_HEAD_OPS:
+        return None         # a head wrapped over two lines: only the operators that know which physical line they edit
     res = o["fn"](p, i, rng)
     if res is None:
         return None
@@ -62,6 +64,7 @@ def _in_header_block(p, i):
     return p.lines[i].kind == "hdr"
 
 
+WRAPPED_HEAD_OPS = ("V01", "V01b", "V02", "V46", "V47", "V69", "V70")
 BODY = ("stmt", "decl", "ctrl")
 CODE = ("stmt", "decl", "ctrl", "fhead", "proto", "global")
 
@@ -75,6 +78,19 @@ def _(p, i, r):
         return None
     l.segs.append((" ", "ws:trail"))
     return i, l.text().count("\n")
+
+
+@op("V01b", "trailing_space_inside_wrapped", "SPC_BEFORE_NL", ("stmt", "fhead"), ("c", "h"))
+def _(p, i, r):
+    """a blank before the line end *inside* a statement or a function head that continues on the next line"""
+    l = p.lines[i]
+    js = [j for j, (t, c) in enumerate(l.segs) if c == "ws:nl" and j and not l.segs[j - 1][1].startswith(("comment", "ws"))]
+    if not js:
+        return None
+    j = r.choice(js)
+    off = l.text()[:_offset(l, j)].count("\n")
+    l.segs.insert(j, (" ", "ws:trail"))
+    return i, off
 
 
 @op("V02", "trailing_tab", "SPC_BEFORE_NL", CODE, ("c", "h"))
@@ -597,7 +613,7 @@ def _(p, i, r):
     return i
 
 
-@op("V40", "global_no_g", "GLOBAL_VAR_NAMING", ("global",))
+@op("V40", "global_no_g", "GLOBAL_VAR_NAMING", ("global",), ("c", "h"))
 def _(p, i, r):
     l = p.lines[i]
     # without any prefix, or with another one
